@@ -82,6 +82,7 @@ class ExecExec(BookExec):
             # popped_*.append(order): element array + idx ghost
             k, a = st.lel(("ref", "Order")); st.heap[k] = z3.Store(a, r, z3.Store(z3.Select(a, r), n, pos[0].term))
             set_len(st, r, n + 1)
+            set_mem(st, r, z3.Store(z3.Select(mem_arr(st)[1], r), pos[0].term, True))
             gname = "idxB" if z3.eq(r, self.popB) else "idxS"
             set_ghost(st, gname, z3.Store(ghost(st, gname), pos[0].term, n))
             return [(st, V(("none",)))]
@@ -102,6 +103,7 @@ def make_inv(ex, st0, qB, qS, origB, origS):
              (f"{tag}: popped are original, not in queue, idx", z3.ForAll([k], z3.Implies(z3.And(0 <= k, k < nP), z3.And(idx[P[k]] == k, z3.Not(mem(st, q, P[k])), orig[P[k]])))),
              (f"{tag}: orig = queue + popped", z3.ForAll([x], orig[x] == z3.Or(mem(st, q, x), poppedp(x)))),
              (f"{tag}: popped not in queue", z3.ForAll([x], z3.Implies(poppedp(x), z3.Not(mem(st, q, x))))),
+             (f"{tag}: mem view of the popped list", z3.ForAll([x], mem(st, popped, x) == poppedp(x))),
              (f"{tag}: popped sorted", z3.ForAll([k, k2], z3.Implies(z3.And(0 <= k, k < k2, k2 < nP), bf(P[k], P[k2])))),
              (f"{tag}: popped before queue", z3.ForAll([k, x], z3.Implies(z3.And(0 <= k, k < nP, mem(st, q, x)), bf(P[k], x)))),
              (f"{tag}: unpopped unfilled", z3.ForAll([x], z3.Implies(z3.Not(poppedp(x)), fill[x] == 0))),
